@@ -457,6 +457,7 @@ pub struct Counters {
     pub max_depth: usize,
     pub budget_hit: bool,
     pub amono_violations: u64,
+    pub comb_nodes: u64,
 }
 
 struct MemoEntry {
@@ -492,6 +493,9 @@ pub struct Explorer<'a> {
     pub sample_scripts: Vec<(Vec<u64>, String)>,
     alpha_cache: HashMap<(u8, u32), Option<std::sync::Arc<Vec<MacroAtom>>>>,
     memo_entries: usize,
+    restart_cache: HashMap<u64, (u32, i32)>,
+    /// number of leaf executions per bin (resolution of the tails)
+    pub leaf_bins: Vec<u32>,
     /// witnesses of the most recently explored `More` node: (signature, prefix length, witnesses)
     last_wit: Option<(u64, usize, Vec<(Vec<u64>, [Probe; 2])>)>,
 }
@@ -529,7 +533,7 @@ const FILL: u64 = 0x400; // low 11 bits used when they are irrelevant
 
 impl<'a> Explorer<'a> {
     pub fn new(s: &'a dyn Sampler, grid: &'a Grid, cfg: TreeCfg, macros: Option<&'a std::sync::Mutex<MacroAlphabets>>) -> Self {
-        Explorer { s, grid, cfg, macros, cnt: Counters::default(), memo: HashMap::new(), collectors: vec![], bad_leaves: vec![], boundary_scripts: vec![], sample_scripts: vec![], alpha_cache: HashMap::new(), memo_entries: 0, last_wit: None }
+        Explorer { s, grid, cfg, macros, cnt: Counters::default(), memo: HashMap::new(), collectors: vec![], bad_leaves: vec![], boundary_scripts: vec![], sample_scripts: vec![], alpha_cache: HashMap::new(), memo_entries: 0, restart_cache: HashMap::new(), leaf_bins: vec![0; grid.k() + 1], last_wit: None }
     }
 
     #[inline]
@@ -583,6 +587,22 @@ impl<'a> Explorer<'a> {
         self.offer_witness(p, &e0);
         let (tag, mid) = (e0.over_tag, e0.over_mid);
         let mut probes: Vec<Probe> = vec![Self::probe_of(&e0, p.len())];
+        // restart cache: a sibling (same parent node, same length) with the same outcomes on two continuation
+        // seeds has already been fully classified as a restart
+        let parent_len = path.last().map(|n| n.len).unwrap_or(usize::MAX);
+        let ckey = if path.is_empty() { None } else {
+            let e1 = self.exec(p, 2, false);
+            probes.push(Self::probe_of(&e1, p.len()));
+            let (a, b) = (probes[0], probes[1]);
+            Some(mixh(mixh(a.bits ^ ((a.rel_req as u64) << 40) ^ ((a.kind as u64) << 60), b.bits ^ ((b.rel_req as u64) << 40) ^ ((b.kind as u64) << 60)), ((parent_len as u64) << 20) ^ p.len() as u64))
+        };
+        if let Some(k) = ckey {
+            if let Some(&(anc_len, shift)) = self.restart_cache.get(&k) {
+                if path.iter().any(|n| n.len == anc_len as usize) {
+                    return Class::Restart { anc_len, shift, req: p.len() as u32 };
+                }
+            }
+        }
         // restart tests, deepest ancestor first
         let s_n = self.cfg.restart_probes;
         for ai in (0..path.len()).rev() {
@@ -638,6 +658,14 @@ impl<'a> Explorer<'a> {
             if ok {
                 let sh = shift.unwrap_or(0);
                 if sh >= 0 && sh < i32::MAX as i64 {
+                    if let Some(k) = ckey {
+                        if sh == 0 {
+                            if self.restart_cache.len() > 200_000 {
+                                self.restart_cache.clear();
+                            }
+                            self.restart_cache.insert(k, (alen as u32, 0));
+                        }
+                    }
                     return Class::Restart { anc_len: alen as u32, shift: sh as i32, req: p.len() as u32 };
                 }
             }
@@ -781,7 +809,9 @@ impl<'a> Explorer<'a> {
                 if bad {
                     r.bad = 1.0;
                 } else {
-                    r.atoms.push((self.grid.bin(v), 1.0));
+                    let b = self.grid.bin(v);
+                    self.leaf_bins[b as usize] = self.leaf_bins[b as usize].saturating_add(1);
+                    r.atoms.push((b, 1.0));
                 }
                 r.words = (req as usize - node_len) as f64;
                 if self.cfg.collect_flat && !bad {
@@ -862,9 +892,10 @@ impl<'a> Explorer<'a> {
         }
         // low-bit relevance probe
         let mut low_matters = false;
-        for &(j, id) in pts.iter().skip(3).step_by(7).take(2) {
+        for &(j, _) in pts.iter().skip(3).step_by(7).take(2) {
+            let id = self.cheap_ext(p, Self::word53(j));
             for &fill in &[0u64, 0x3D5] {
-                if self.cheap(p, (j << 11) | fill) != id {
+                if self.cheap_ext(p, (j << 11) | fill) != id {
                     low_matters = true;
                 }
             }
@@ -893,11 +924,35 @@ impl<'a> Explorer<'a> {
         let continuous = cont_votes >= 2;
         if !low_matters && !continuous {
             if let Some(r) = self.subdivide(p, path, pts, vdepth) {
+                if vdepth >= 1 && std::env::var("VERIF_CHECK_SUB").is_ok() {
+                    let save = self.cfg.lattice.clone();
+                    self.cfg.lattice = vec![1 << 12; 6];
+                    let r2 = self.lattice_range(p, path, vdepth, 0, 1u64 << 53);
+                    self.cfg.lattice = save;
+                    let k = self.grid.k();
+                    let (a, b) = (r.cdf(k), r2.cdf(k));
+                    let d = a.iter().zip(b.iter()).map(|(x, y)| (x - y).abs()).fold(0.0, f64::max);
+                    let du = (r.total_up() - r2.total_up()).abs();
+                    if d > 2e-3 || du > 2e-3 {
+                        eprintln!("SUBCHECK mismatch at prefix {:x?}: max cdf diff {:.3e}, up diff {:.3e} (sub up {:.4} lattice up {:.4})", p, d, du, r.total_up(), r2.total_up());
+                    }
+                }
                 return r;
             }
         }
         // 3. lattice
         self.lattice(p, path, vdepth, low_matters)
+    }
+
+    /// extended signature for bit-relevance probing: besides the continuation seed, the next word is forced to
+    /// both extremes (so that a following accept/reject draw cannot mask the effect of this word)
+    fn cheap_ext(&mut self, p: &mut Vec<u64>, w: u64) -> u64 {
+        let a = self.cheap(p, w);
+        p.push(w);
+        let b = self.cheap(p, 0);
+        let c = self.cheap(p, !0u64);
+        p.pop();
+        mixh(a, mixh(b, c))
     }
 
     /// cheap signature of child word `w` of node `p`: the outcome of one execution on continuation seed 1
@@ -916,6 +971,8 @@ impl<'a> Explorer<'a> {
     /// by full classification of its two end words (which must agree).
     fn subdivide(&mut self, p: &mut Vec<u64>, path: &mut Vec<PathNode>, pts: Vec<(u64, u64)>, vdepth: usize) -> Option<Res> {
         let node_len = p.len();
+        // deep in the tree a word with many classes is cheaper to treat as a lattice level
+        let max_classes = if vdepth == 0 { self.cfg.max_classes } else { 16 };
         let mut runs: Vec<(u64, u64)> = vec![]; // (start j, cheap id) in increasing j
         let mut distinct: HashMap<u64, ()> = HashMap::new();
         let mut stack: Vec<(u64, u64, u64, u64)> = vec![];
@@ -941,7 +998,7 @@ impl<'a> Explorer<'a> {
                 }
                 distinct.insert(cb, ());
                 runs.push((jb, cb));
-                if distinct.len() > self.cfg.max_classes {
+                if distinct.len() > max_classes {
                     aborted = true;
                     break;
                 }
@@ -955,8 +1012,103 @@ impl<'a> Explorer<'a> {
         if aborted {
             return None;
         }
+        // verification rounds: interior points of every run must carry the run's signature; a point that does
+        // not (interleaved accept/reject bands, non-monotone step functions) is inserted and bisected around
+        for _round in 0..6 {
+            runs.sort_by_key(|r| r.0);
+            runs.dedup_by(|b, a| a.1 == b.1);
+            let top1 = 1u64 << 53;
+            let mut extra: Vec<(u64, u64, u64, u64)> = vec![];
+            let nr = runs.len();
+            for i in 0..nr {
+                let start = runs[i].0;
+                let end = if i + 1 < nr { runs[i + 1].0 } else { top1 };
+                let n = end - start;
+                if n < 64 {
+                    continue;
+                }
+                let mut prev = (start, runs[i].1);
+                for t in 1..16u64 {
+                    let j = start + n / 16 * t;
+                    let c = self.cheap(p, Self::word53(j));
+                    if c != prev.1 {
+                        extra.push((prev.0, prev.1, j, c));
+                    }
+                    prev = (j, c);
+                }
+                if prev.1 != runs[i].1 && end - 1 > prev.0 {
+                    // back to the run's signature before the run ends (the next run starts with another one)
+                    let c_end = self.cheap(p, Self::word53(end - 1));
+                    if c_end != prev.1 {
+                        extra.push((prev.0, prev.1, end - 1, c_end));
+                    }
+                }
+            }
+            if extra.is_empty() {
+                break;
+            }
+            let mut stack: Vec<(u64, u64, u64, u64)> = extra;
+            while let Some((ja, ca, jb, cb)) = stack.pop() {
+                if ca == cb {
+                    continue;
+                }
+                if jb - ja == 1 {
+                    self.cnt.boundaries += 1;
+                    distinct.insert(cb, ());
+                    runs.push((jb, cb));
+                    if distinct.len() > max_classes || runs.len() > 4 * max_classes {
+                        aborted = true;
+                        break;
+                    }
+                    continue;
+                }
+                let jm = ja + (jb - ja) / 2;
+                let cm = self.cheap(p, Self::word53(jm));
+                stack.push((jm, cm, jb, cb));
+                stack.push((ja, ca, jm, cm));
+            }
+            if aborted {
+                return None;
+            }
+        }
+        runs.sort_by_key(|r| r.0);
+        runs.dedup_by(|b, a| a.1 == b.1);
+        {
+            // exact subdivision is trusted for (a) words with at most three bands, (b) at the top level, step
+            // functions whose signatures never reappear (inverse transforms). Everything else (interleaved
+            // accept/reject bands accumulating at an end point, e.g. the exponential tails of BTPE/H2PE) is
+            // explored as a lattice level, whose error bound does not rely on having found every band.
+            let mut seen: HashMap<u64, usize> = HashMap::new();
+            let mut reappears = false;
+            for (i, r) in runs.iter().enumerate() {
+                if let Some(prev) = seen.insert(r.1, i) {
+                    if prev + 1 != i {
+                        reappears = true;
+                    }
+                }
+            }
+            if (vdepth >= 1 && runs.len() > 3) || (runs.len() > 3 && reappears) {
+                self.cnt.amono_violations += reappears as u64;
+                return None;
+            }
+        }
         self.cnt.subdivided += 1;
-        // A-mono check: a signature must not reappear after another one
+        if let Ok(h) = std::env::var("VERIF_DUMP_PREFIX") {
+            if p.len() == 1 && format!("{:x}", p[0]) == h {
+                eprintln!("DUMP runs for prefix {:x?}:", p);
+                for r in &runs {
+                    eprintln!("   start={:.6} sig={:x}", r.0 as f64 / (1u64 << 53) as f64, r.1);
+                }
+                for i in 0..128u64 {
+                    let j = (i << 46) + (1 << 45);
+                    p.push(Self::word53(j));
+                    let e = self.exec(p, 1, false);
+                    p.pop();
+                    eprintln!("   v={:.5} out={:?} req={} overrun={}", j as f64 / (1u64 << 53) as f64, match &e.out { Outcome::Done(s) => s.v, _ => -1.0 }, e.requests, e.overrun);
+                }
+            }
+        }
+        // bookkeeping: does a signature reappear after another one (non run-monotone word)?
         {
             let mut seen: HashMap<u64, usize> = HashMap::new();
             for (i, r) in runs.iter().enumerate() {
@@ -1064,8 +1216,58 @@ impl<'a> Explorer<'a> {
 
     /// midpoint lattice over the whole word, with dyadic tail strata
     fn lattice(&mut self, p: &mut Vec<u64>, path: &mut Vec<PathNode>, vdepth: usize, low_matters: bool) -> Res {
-        let _ = low_matters;
-        self.lattice_range(p, path, vdepth, 0, 1u64 << 53)
+        if !low_matters {
+            return self.lattice_range(p, path, vdepth, 0, 1u64 << 53);
+        }
+        // which bits matter? flip single bits of three base words and compare cheap signatures
+        let bases = [0x5A5A_5A5A_5A5A_5A5Au64, 0x0123_4567_89AB_CDEF, 0xC3C3_3C3C_A5A5_5A5A, 0x0F0F_00FF_1234_8001, 0xFEDC_BA98_7654_3210];
+        let ids: Vec<u64> = bases.iter().map(|&b| self.cheap_ext(p, b)).collect();
+        let mut hi: Option<u32> = None;
+        for b in (0..64u32).rev() {
+            let mut ch = false;
+            for (i, &w) in bases.iter().enumerate() {
+                if self.cheap_ext(p, w ^ (1u64 << b)) != ids[i] {
+                    ch = true;
+                    break;
+                }
+            }
+            if ch {
+                hi = Some(b);
+                break;
+            }
+        }
+        let hi = match hi {
+            Some(h) if h < 60 => h,
+            _ => {
+                // high and low bits both matter (or nothing detectable): not a shape this explorer resolves;
+                // the mass below this node is reported as residual and the case is not judged
+                return Res { resid: 1.0, ..Default::default() };
+            }
+        };
+        // low window [0, hi]: the word acts through the integer m = word mod 2^(hi+1)
+        let node_len = p.len();
+        self.cnt.lattice_nodes += 1;
+        let wbits = hi + 1;
+        let nvals: u64 = 1u64 << wbits;
+        let a = (*self.cfg.lattice.get(vdepth).unwrap_or(self.cfg.lattice.last().unwrap()) as u64).min(nvals);
+        let topfill = 0xA5A5_A5A5_A5A5_A5A5u64 & !(nvals - 1);
+        let mut acc = Acc::new(self.grid.k(), a < nvals, self.cfg.collect_flat);
+        for i in 0..a {
+            let lo = (nvals as u128 * i as u128 / a as u128) as u64;
+            let hi_ = (nvals as u128 * (i + 1) as u128 / a as u128) as u64;
+            let m = lo + (hi_ - lo) / 2;
+            let wv = topfill | m;
+            p.push(wv);
+            let cls = self.classify(p, path);
+            let r = self.child_res(p, path, cls, node_len, vdepth + 1);
+            p.pop();
+            acc.add((hi_ - lo) as f64 / nvals as f64, &r, 0.0, &[wv]);
+        }
+        let mut r = acc.finish();
+        if a < nvals {
+            r.vlevels += 1;
+        }
+        r
     }
 
     fn lattice_range(&mut self, p: &mut Vec<u64>, path: &mut Vec<PathNode>, vdepth: usize, start: u64, end: u64) -> Res {
@@ -1106,8 +1308,8 @@ impl<'a> Explorer<'a> {
             cells.extend(hi_cells);
         } else {
             for i in 0..a {
-                let lo = start + n * i / a;
-                let hi = start + n * (i + 1) / a;
+                let lo = start + (n as u128 * i as u128 / a as u128) as u64;
+                let hi = start + (n as u128 * (i + 1) as u128 / a as u128) as u64;
                 if hi > lo {
                     cells.push((lo, hi));
                 }
@@ -1115,14 +1317,47 @@ impl<'a> Explorer<'a> {
         }
         let mut acc = Acc::new(self.grid.k(), true, self.cfg.collect_flat);
         let tot = n as f64;
+        // comb detection: the variation bound assumes the conditional law is monotone between adjacent sample
+        // points; a word along which accept/reject alternate repeatedly or leaf values change direction hides
+        // structure below the lattice resolution, so such a node also pays its largest cell mass
+        let (mut last_kind, mut switches) = (0u8, 0u32);
+        let (mut last_v, mut last_dir, mut dir_changes) = (f64::NAN, 0i8, 0u32);
+        let mut max_cell = 0.0f64;
         for &(lo, hi) in &cells {
             let j = lo + (hi - lo) / 2;
             let wv = Self::word53(j);
             p.push(wv);
             let cls = self.classify(p, path);
+            let kind = match &cls {
+                Class::Leaf { v, .. } => {
+                    if !last_v.is_nan() && *v != last_v {
+                        let d = if *v > last_v { 1 } else { -1 };
+                        if last_dir != 0 && d != last_dir {
+                            dir_changes += 1;
+                        }
+                        last_dir = d;
+                    }
+                    last_v = *v;
+                    1u8
+                }
+                Class::Restart { .. } => 2u8,
+                _ => 0u8,
+            };
+            if kind != 0 {
+                if last_kind != 0 && kind != last_kind {
+                    switches += 1;
+                }
+                last_kind = kind;
+            }
             let r = self.child_res(p, path, cls, node_len, vdepth + 1);
             p.pop();
-            acc.add((hi - lo) as f64 / tot, &r, 0.0, &[wv]);
+            let m = (hi - lo) as f64 / tot;
+            max_cell = max_cell.max(m);
+            acc.add(m, &r, 0.0, &[wv]);
+        }
+        if switches > 2 || dir_changes > 1 {
+            self.cnt.comb_nodes += 1;
+            acc.err_boundary += max_cell;
         }
         let mut r = acc.finish();
         r.vlevels += 1;
